@@ -350,7 +350,7 @@ func TestRequeuer(t *testing.T) {
 			hasDest := rapid.IntRange(0, 5).Draw(t, "hasDest") != 0
 			delete(s.Meta, "dest")
 			if hasDest {
-				s.Meta["dest"] = rapid.SampledFrom([]string{"orders", "a/b"}).Draw(t, "dest")
+				s.Meta["dest"] = rapid.SampledFrom([]string{"orders", "a/b", "poison"}).Draw(t, "dest") // the destination Pub/Sub is another system: its topic may be named like the one the requeuer reads
 			}
 			start := len(d.Calls())
 			if cancelMode {
